@@ -70,6 +70,10 @@ func twinOp(r *core.Rand, a *msggen.Abs, mode string) string {
 	skip := "0"
 	if logger != "snapshot" && r.Chance(1, 4) {
 		skip = "1"
+		if r.Chance(3, 4) {
+			// the marking spelled out: any number of marks, from either side of the exchange
+			return strings.Join(append([]string{"twinm", logger, o1, o2, DrawMarks(r, a.Req), mode, TrustedTok(a)}, a.Tokens()...), " ")
+		}
 	}
 	return strings.Join(append([]string{"twinx", logger, o1, o2, skip, mode, TrustedTok(a)}, a.Tokens()...), " ")
 }
@@ -180,6 +184,7 @@ func (P) Gen(r *core.Rand, tier string, emit func([]string)) {
 	}
 	bigCases(r.Fork(), tier, emit)
 	badCases(r.Fork(), emit)
+	multiCases(r.Fork(), tier, emit)
 	n := 350
 	if tier == "thorough" {
 		n = 4000
@@ -204,6 +209,14 @@ func (P) Gen(r *core.Rand, tier string, emit func([]string)) {
 			}
 			if a.Chunked() && a.NilTrailer && r.Bool() {
 				a.NilTrailer = false
+			}
+		}
+		if mode == "p" && r.Chance(1, 10) {
+			// struct fields that disagree with same-named keys of the header map: the snapshot, like
+			// the wire, carries the fields
+			if label, m := msggen.Disagree(r, a); label != "" {
+				mode = m
+				core.Count("disagree:" + label)
 			}
 		}
 		skip, cts := "0", "-"
